@@ -107,6 +107,8 @@ pub struct SzxOpts {
     pub lowercase_ids: bool,
     /// chFe of the SPCR chunk (last value written to port 0xFE); None = the border colour, MIC and EAR low
     pub fe: Option<u8>,
+    /// chFlags of the AY chunk; None = 128K-style AY (2) in 48K files, 0 in 128K files
+    pub ay_flags: Option<u8>,
 }
 
 impl Default for SzxOpts {
@@ -121,6 +123,7 @@ impl Default for SzxOpts {
             mouse: None,
             lowercase_ids: false,
             fe: None,
+            ay_flags: None,
         }
     }
 }
@@ -161,7 +164,7 @@ pub fn szx(d: &MachineDesc, o: &SzxOpts) -> Vec<u8> {
         chunks.push(chunk(b"RAMP", &data));
     }
     if let Some((cur, regs)) = &o.ay {
-        let mut a = vec![if d.m128 { 0 } else { 2 }, *cur];
+        let mut a = vec![o.ay_flags.unwrap_or(if d.m128 { 0 } else { 2 }), *cur];
         a.extend(regs);
         chunks.push(chunk(b"AY\0\0", &a));
     }
